@@ -1618,7 +1618,8 @@ func (c *Ctx) readCycleRule(rule string) {
 				hit = true
 			}
 		})
-		res := hit && reachFromEntry(fn, isReturn, done) == nil
+		noExit := func(from *ssa.BasicBlock, k int) bool { return !exitEdge[[2]interface{}{from, k}] }
+		res := hit && reachFromBlockF(fn.Blocks[0], isReturn, done, noExit) == nil
 		memo[fn] = res
 		return res
 	}
